@@ -568,7 +568,6 @@ def tree_classes(nodes, root):
        chain_early_else an else-chain with a non-conditional element before its end
        reapply_pending  `^~` somewhere other than the tail of its expression body
        terminator       a bare `;;`
-       chain_terminator an else-chain whose final else is a bare `;;` (C06-K5; always together with terminator)
        empty_program    no node at all"""
     tags = set()
     if not nodes:
@@ -591,8 +590,6 @@ def tree_classes(nodes, root):
                 tags.add("chain_no_else")
             if any(nodes[e]["def"] not in COND for e in els[:-1]):
                 tags.add("chain_early_else")
-            if els and nodes[els[-1]]["def"] == "ExpressionTerminator":
-                tags.add("chain_terminator")      # inside the excluded class: C06-K5
         if d == "Reapply":
             if not reapply_in_tail(nodes, i):
                 tags.add("reapply_pending")
@@ -637,14 +634,6 @@ def silent(nodes, i):
         return True if n["right"] is None else silent(nodes, n["right"])
     if n["def"] == "ElseJump":
         return n["left"] is not None and n["right"] is not None and silent(nodes, n["left"]) and silent(nodes, n["right"])
-    return False
-
-
-def has_empty_body(nodes, root):
-    for i in reachable(nodes, root):
-        n = nodes[i]
-        if n["def"] == "NestedExpression" and n["right"] is not None and silent(nodes, n["right"]):
-            return True
     return False
 
 
